@@ -53,13 +53,15 @@ theorem promotedField_chain :
     firstBefore (iff "getFieldMap,isPromotedStruct,Field") (iff "promotedField") promotedField_events = true := by decide
 
 /-- `getJSONFieldName`, `buildFieldMap`, `isPromotedStruct`, `elementTag` (models `jsonFieldName`, `mapsTo`,
-    `isPromotedStruct`, `afterDive`): the literals they compare with, in order, and the `continue` that keeps a
-    `json:"-"` field out of the map (K05k) -/
+    `isPromotedStruct`, `afterDive`): the literals they compare with, in order, the `continue` that keeps a
+    `json:"-"` field out of the map (K05k) and the one that keeps a promoted embedded struct from being entered
+    under a JSON name (K05m) -/
 theorem name_rules :
     only "lit" getJSONFieldName_events = ["json", "", "-", ",", ""] ∧
     only "if" getJSONFieldName_events = ["", "Cut", ""] ∧
-    only "lit" buildFieldMap_events = ["json", "-", ""] ∧
-    between (kw "continue") (lit "-") (iff "getJSONFieldName") buildFieldMap_events = true ∧
+    firstBefore (lit "-") (iff "isPromotedStruct") buildFieldMap_events = true ∧
+    between (kw "continue") (lit "-") (iff "isPromotedStruct") buildFieldMap_events = true ∧
+    between (kw "continue") (iff "isPromotedStruct") (iff "getJSONFieldName") buildFieldMap_events = true ∧
     only "if" isPromotedStruct_events = ["Anonymous,Tag,Get", "Kind,Pointer"] ∧
     only "lit" isPromotedStruct_events = ["json", ""] ∧
     only "lit" elementTag_events = ["", ",", "dive", ""] ∧
